@@ -107,6 +107,40 @@ Proof.
   - split; [discriminate|tauto].
   - rewrite N.eqb_eq, top_bits_testbit by assumption. tauto.
 Qed.
+
+(* an entry without prefix length: exactly that address *)
+Lemma top_bits_full : forall w x, x < 2 ^ w -> top_bits w w x = x.
+Proof.
+  intros w x H. unfold top_bits. rewrite N.sub_diag. change (2 ^ 0) with 1.
+  rewrite N.div_1_r. apply N.mod_small. exact H.
+Qed.
+
+Lemma in_net_full : forall b a, wf_ip b -> wf_ip a -> in_net (full_net b) a = ip_eqb a b.
+Proof.
+  intros [x|x] [y|y] Hb Ha; cbn [full_net in_net fst snd ip_eqb wf_ip] in *; try reflexivity.
+  - rewrite !top_bits_full by assumption. apply N.eqb_sym.
+  - rewrite !top_bits_full by assumption. apply N.eqb_sym.
+Qed.
+
+Lemma ip_eqb_eq : forall a b, ip_eqb a b = true <-> a = b.
+Proof.
+  intros [x|x] [y|y]; cbn [ip_eqb]; try (split; [discriminate|intros H; discriminate H]).
+  - rewrite N.eqb_eq. split; [congruence|intros H; now injection H].
+  - rewrite N.eqb_eq. split; [congruence|intros H; now injection H].
+Qed.
+
+Lemma bare_entry_exact : forall b a, wf_ip b -> wf_ip a ->
+  (contains (full_net b) a = true <-> a = b).
+Proof. intros b a Hb Ha. rewrite contains_in_net, in_net_full by assumption. apply ip_eqb_eq. Qed.
+
+(* what a wrong mask length does: with the mask of an IPv4 address (/32) on an
+   IPv6 entry, every address of its /32 is on the list *)
+Lemma short_mask_matches_neighbours : forall b a, wf_ip (V6 b) -> wf_ip (V6 a) ->
+  N.shiftr b 96 = N.shiftr a 96 -> contains (V6 b, 32) (V6 a) = true.
+Proof.
+  intros b a Hb Ha H. apply (contains_shiftr (V6 b) 32 (V6 a)); [cbn; lia|exact Hb|exact Ha|].
+  cbn [same_family num width]. split; [exact I|]. change (128 - 32) with 96. exact H.
+Qed.
 End Cidr.
 
 (* ======================================================================== *)
@@ -305,7 +339,8 @@ Qed.
 (* 4. GetRealUserIP                                                           *)
 (* ======================================================================== *)
 Section RealIPProofs.
-Context (parse_ip : string -> option ip) (split_host_port : string -> option string).
+Context (parse_ip : string -> option ip) (split_host_port : string -> option string)
+        (parse_cidr : string -> option net).
 
 Notation strip := (strip_port split_host_port).
 Notation realip := (real_ip parse_ip split_host_port).
@@ -435,17 +470,116 @@ Proof.
   rewrite (real_ip_spec Ho). destruct (parse_ip _); [apply allowed_on_list|reflexivity].
 Qed.
 
+(* ---- configuration strings: the model's ParseAllowedIps is the reading of
+        corr/Run_C16.v ------------------------------------------------------------ *)
+Notation pallowed := (parse_allowed parse_ip parse_cidr).
+Notation snets := (spec_nets parse_ip parse_cidr).
+Notation sentry := (spec_entry parse_ip parse_cidr).
+
+Lemma has_slash_existsb : forall s,
+  has_slash s = existsb (fun c => Ascii.eqb c "/") (list_ascii_of_string s).
+Proof. induction s as [|c r IH]; cbn; [reflexivity|]. now rewrite IH. Qed.
+
+Definition good_entry (e : entry) : bool := match e with EBad => false | _ => true end.
+Definition entries_nets (es : list entry) : option (list net) :=
+  if forallb good_entry es then Some (flat_map entry_net es) else None.
+
+Lemma parse_ipnet_entry : forall s,
+  parse_ipnet parse_ip parse_cidr s =
+  match sentry s with EBad => None | e => match entry_net e with n :: _ => Some n | [] => None end end.
+Proof.
+  intros s. unfold parse_ipnet, spec_entry. rewrite <- has_slash_existsb.
+  destruct (has_slash s).
+  - destruct (parse_cidr s); reflexivity.
+  - destruct (parse_ip s) as [[x|x]|]; reflexivity.
+Qed.
+
+Lemma entry_net_good : forall e, good_entry e = true -> exists n, entry_net e = [n].
+Proof. intros [[x|x]|n|]; cbn; intros H; try discriminate; eauto. Qed.
+
+Lemma parse_entries_spec : forall l,
+  parse_entries parse_ip parse_cidr l =
+  entries_nets (map sentry (filter (fun s => negb (String.eqb s "")) (map trim l))).
+Proof.
+  induction l as [|e r IH]; [reflexivity|].
+  cbn [parse_entries map filter]. destruct (String.eqb (trim e) "") eqn:Ee; cbn [negb]; [exact IH|].
+  cbn [map]. rewrite parse_ipnet_entry, IH. unfold entries_nets. cbn [forallb flat_map].
+  destruct (sentry (trim e)) as [a|n|] eqn:Es; cbn [good_entry andb]; [| |reflexivity].
+  - destruct a as [x|x]; cbn [entry_net];
+      destruct (forallb good_entry _); reflexivity.
+  - cbn [entry_net]. destruct (forallb good_entry _); reflexivity.
+Qed.
+
+Lemma parse_allowed_spec : forall cfg, pallowed cfg = snets cfg.
+Proof.
+  intros cfg. unfold parse_allowed, spec_nets, config_valid, spec_entries.
+  rewrite parse_entries_spec. reflexivity.
+Qed.
+
+(* [on_list] of the configured networks is "the address is one of the entries":
+   an entry without prefix length matches that address and no other *)
+Lemma on_list_entries : (forall s b, parse_ip s = Some b -> wf_ip b) ->
+  forall cfg l a, wf_ip a -> snets cfg = Some l ->
+  on_list l a = configured parse_ip parse_cidr cfg a.
+Proof.
+  intros Hwf cfg l a Ha. unfold spec_nets, configured, config_valid.
+  destruct (forallb _ (spec_entries parse_ip parse_cidr cfg)) eqn:Hv; [|discriminate].
+  intros H. injection H as <-.
+  assert (Hes : forall e, In e (spec_entries parse_ip parse_cidr cfg) ->
+                          match e with EAddr b => wf_ip b | _ => True end).
+  { intros e He. unfold spec_entries in He. apply in_map_iff in He as (s & <- & _).
+    unfold spec_entry. destruct (existsb _ _).
+    - destruct (parse_cidr s); exact I.
+    - destruct (parse_ip s) as [b|] eqn:E; [exact (Hwf s b E)|exact I]. }
+  induction (spec_entries parse_ip parse_cidr cfg) as [|e es IH]; [reflexivity|].
+  cbn [forallb] in Hv. apply andb_prop in Hv as [_ Hv].
+  cbn [flat_map existsb]. unfold on_list in *. rewrite existsb_app.
+  rewrite (IH Hv (fun e' He' => Hes e' (or_intror He'))). f_equal.
+  pose proof (Hes e (or_introl eq_refl)) as He.
+  destruct e as [[x|x]|n|]; cbn [entry_net entry_has existsb]; rewrite ?orb_false_r; try reflexivity.
+  - exact (in_net_full (V4 x) a He Ha).
+  - exact (in_net_full (V6 x) a He Ha).
+Qed.
+
 Lemma model_satisfies_P : oracle_sane -> forall ops,
-  P_C16 parse_ip split_host_port (trace_of parse_ip split_host_port ops) = true.
+  P_C16 parse_ip split_host_port parse_cidr (trace_of parse_ip split_host_port parse_cidr ops) = true.
 Proof.
   intros Ho ops. unfold P_C16, trace_of. apply forallb_forall. intros [o v] Hin.
   apply in_map_iff in Hin. destruct Hin as (o' & Heq & _). injection Heq as -> <-.
-  destruct o as [t peer xr xff|e t al peer xr xff|nets a|]; cbn [P_step step].
+  destruct o as [t peer xr xff|e t al peer xr xff|nets a| |cfg peer xr xff|cfg peer xr xff|e tcfg acfg peer xr xff|cfg a|cfg];
+    cbn [P_step step].
   - rewrite (real_ip_spec Ho). apply String.eqb_refl.
   - unfold endpoint_status. rewrite (allow_stats_spec Ho).
     destruct (spec_gate parse_ip split_host_port t al peer xr xff); reflexivity.
   - rewrite allowed_on_list. apply Bool.eqb_reflx.
   - reflexivity.
+  - destruct cfg as [cfg|].
+    + rewrite parse_allowed_spec. destruct (snets cfg); [|reflexivity].
+      rewrite (real_ip_spec Ho). apply String.eqb_refl.
+    + rewrite (real_ip_spec Ho). apply String.eqb_refl.
+  - unfold hub_trusted. rewrite parse_allowed_spec. destruct (snets cfg); [|reflexivity].
+    rewrite (real_ip_spec Ho). apply String.eqb_refl.
+  - unfold hub_trusted, stats_allowed. rewrite !parse_allowed_spec.
+    destruct (snets tcfg) as [t|]; [|destruct (snets acfg); reflexivity].
+    destruct (snets acfg) as [al|]; [|reflexivity].
+    unfold endpoint_status. rewrite (allow_stats_spec Ho).
+    change (or_default default_trusted t) with (spec_or_default default_trusted t).
+    change (or_default default_stats_allowed al) with (spec_or_default default_stats_allowed al).
+    destruct (spec_gate parse_ip split_host_port _ _ peer xr xff); reflexivity.
+  - rewrite parse_allowed_spec. destruct (snets cfg); [|reflexivity].
+    rewrite allowed_on_list. apply Bool.eqb_reflx.
+  - rewrite parse_allowed_spec. destruct (snets cfg); reflexivity.
+Qed.
+
+(* a direct client of a hub configured with the text cfg: the result is its
+   socket address, whatever headers it sends *)
+Lemma cfg_direct_client : forall cfg t peer xr xff,
+  hub_trusted parse_ip parse_cidr cfg = Some t ->
+  untrusted_peer (Some t) peer ->
+  step parse_ip split_host_port parse_cidr (OCfgHub cfg peer xr xff) = VAddr (strip peer).
+Proof.
+  intros cfg t peer xr xff Ht Hu. cbn [step]. rewrite Ht.
+  now rewrite untrusted_peer_ignores_headers.
 Qed.
 
 (* ---- the same, read relationally --------------------------------------------
